@@ -59,6 +59,15 @@ impl TryFrom<EdgeLoaderConfig> for EdgeLoader {
         let edges = read_utils::from_csv(&c.edge_list_csv, true, Some(cb))?;
 
         eprintln!();
+        // an edge whose source or destination is not in the vertex list cannot be stored in
+        // both adjacency views: refuse the dataset instead of loading an inconsistent graph
+        if !missing_vertices.is_empty() {
+            return Err(NetworkError::DatasetError(format!(
+                "edge list references {} vertex ids outside of the vertex list (0..{})",
+                missing_vertices.len(),
+                c.n_vertices
+            )));
+        }
         let result = EdgeLoader {
             edges,
             adj: adj.into_boxed_slice(),
